@@ -105,6 +105,11 @@ def gen(run):
         [P.F(), box(b"mdat", body[:3], form="eof"), box(b"mdat", body, form="eof"), m1],
         [box(b"mdat", body, form="eof"), P.F(), m1], [P.F(), box(b"mdat", body, form="eof", uuid=None), box(b"uuid", b"q", uuid=bytes(16))],
         [P.F(), m1, box(b"mdat", body, form="64")], [P.F(), m1, box(b"free", body, form="eof")],
+        # SEVERAL until-EOF mdat headers of the same declared-by-option size: the option applies to every one of them
+        [P.F(), box(b"mdat", body, form="eof"), box(b"mdat", body, form="eof"), m1],
+        [P.F(), m1, box(b"mdat", body, form="eof"), box(b"mdat", body, form="eof"), box(b"junk", b"xy")],
+        [P.F(), box(b"mdat", body, form="eof"), box(b"mdat", body, form="eof"), box(b"mdat", body, form="eof"), m1, box(b"free", b"")],
+        [P.F(), box(b"mdat", body, form="eof"), box(b"mdat", body), box(b"mdat", body, form="eof"), m1],
     ]
     for sh in shapes:
         data = b"".join(sh)
@@ -245,11 +250,18 @@ def oracle(run, pairs):
             # walk under `t` stops before listing the box); the first one is what the override applies to
             ex = c["exts"]
             hit = False
-            for b in boxes_none:
-                if b["type"] == b"mdat" and b["eof"]:
-                    ex = patch_exts(ex, b["off"], be32(t))
-                    hit = True
-                    break
+            if t >= 8:
+                # every until-EOF mdat header reached when each of them is read with the size t (there may be several)
+                for b in walk(sb, t)[0]:
+                    if b["type"] == b"mdat" and b["eof"]:
+                        ex = patch_exts(ex, b["off"], be32(t))
+                        hit = True
+            else:
+                for b in boxes_none:
+                    if b["type"] == b"mdat" and b["eof"]:
+                        ex = patch_exts(ex, b["off"], be32(t))
+                        hit = True
+                        break
             if hit:
                 k = "v%d" % len(jobs)
                 jobs.append("%s %s" % (k, _line(c, c["max"], None, ex)))
